@@ -142,7 +142,7 @@ Proof. induction l as [|o t IH]; intro c; cbn [cl_notes]; [apply SF_refl|]. eapp
 
 (* what one call of sendPending leaves behind *)
 Record SPost (c : cconn) (id : N) (c' : cconn) (r : cl_spres) : Prop := mkSPost {
-  sp_win : cc_winCh c' = cc_winCh c;
+  sp_win : cc_winCh c' = false -> cc_winCh c = false;   (* a chunk handed back to the connection window sets the token *)
   sp_sw : cc_streamWindow c' = cc_streamWindow c;
   sp_cw : (cc_connWindow c' <= cc_connWindow c)%Z;
   sp_other : forall x, x <> id -> cl_pend_get (cc_pending c') x = cl_pend_get (cc_pending c) x;
@@ -171,6 +171,7 @@ Lemma SPost_deleted (c c' : cconn) id r :
   SPost c id c' r.
 Proof.
   intros A B C W R X. constructor; auto.
+  - rewrite W. auto.
   - rewrite B. apply Z.le_refl.
   - intros x NE. rewrite A. apply pend_get_del_other. exact NE.
   - intros x. rewrite A. apply pend_del_ids_incl.
@@ -285,7 +286,7 @@ Proof.
                              | CSPStuck => cc_wl_stuck c2 = true
                              | CSPWriteErr => True
                              end -> SPost c id c2 r).
-      { intros r X. constructor; auto. }
+      { intros r X. constructor; auto; try (rewrite W2; auto). }
       destruct ((n =? 0)%Z && negb (cs_end c pb)) eqn:Z0.
       * (* nothing can be sent *)
         cbn [fst snd]. apply P2. right. apply andb_prop in Z0. destruct Z0 as [Z0 NE]. apply Z.eqb_eq in Z0. apply negb_true_iff in NE.
@@ -302,11 +303,11 @@ Proof.
            destruct (SF_notes (cl_write_data (cc_maxFrame c2) id (cs_chunk c pb) (cs_end c pb)) c2) as (F1 & F2 & F3 & F4 & F5). fold c3 in F1, F2, F3, F4, F5.
            assert (R3 : RNG c3) by (destruct R2 as [r1 r2 r3 r4]; constructor; rewrite ?F1, ?F2, ?F3; auto).
            assert (P3 : SPost c id c3 CSPWriteErr).
-           { constructor; rewrite ?F1, ?F2, ?F3, ?F4; auto. }
+           { constructor; rewrite ?F1, ?F2, ?F3, ?F4, ?W2; auto. }
            destruct (cs_end c pb) eqn:EN.
            ++ cbn [fst snd]. destruct (SF_close_body c3 (cs_pb c pb)) as (C1 & C2 & C3 & C4 & C5).
               constructor.
-              ** rewrite C4, F4. exact W2.
+              ** rewrite C4, F4, W2. auto.
               ** rewrite C3, F3. exact SW2.
               ** rewrite C2, F2. exact CWLE.
               ** intros x NE. rewrite C1, F1. apply O2. exact NE.
@@ -346,18 +347,28 @@ Proof.
                  right. eexists. split; [exact E4|]. unfold blocked, blockedw. rewrite PW4, CW4, N0, !Z.sub_0_r.
                  unfold cs_pb at 1. rewrite N0. cbn [pb_body pbu_body pbu_window Z.to_N dropN N.to_nat skipn]. split; [rewrite BODY; discriminate|].
                  rewrite F2, CW2, PW. exact AS1.
-        -- (* the request has been taken back *)
-           destruct (cl_delete_pending 1 [] c2 id) as [c3 stuck] eqn:DP.
+        -- (* the request has been taken back: the chunk goes back to the connection window *)
+           set (c2' := if (0 <? n)%Z then cl_add_window c2 0 n else c2).
+           assert (P2' : SPost c id c2' CSPWriteErr).
+           { subst c2'. destruct (0 <? n)%Z eqn:NP0; [|apply (P2 CSPWriteErr); exact I].
+             unfold cl_add_window, cl_signal_window. cbn [N.eqb].
+             assert (CWB : cl_i32 (cc_connWindow c2 + n) = cc_connWindow c).
+             { rewrite CW2. replace (cc_connWindow c - n + n)%Z with (cc_connWindow c) by (clear; lia). apply cl_i32_id. apply (r_cw _ R). }
+             constructor; cc_cbn; auto.
+             - discriminate.
+             - rewrite CWB. apply Z.le_refl.
+             - destruct R2 as [q1 q2 q3 q4]. constructor; cc_cbn; auto. rewrite CWB. apply (r_cw _ R). }
+           destruct (cl_delete_pending 1 [] c2' id) as [c3 stuck] eqn:DP.
            destruct (delete_pending_flow _ _ _ _ DP) as (A1 & A2 & A3 & A4 & A5). cbn [fst snd].
-           eapply SPost_trans; [apply (P2 CSPWriteErr); exact I|].
-           apply SPost_deleted; auto. destruct stuck; [apply A5; reflexivity | exact I].
+           eapply SPost_trans; [exact P2'|].
+           apply SPost_deleted; auto; [apply (sp_rng _ _ _ _ P2') | destruct stuck; [apply A5; reflexivity | exact I]].
         -- destruct (SF_go_stuck 1 [] c2 false (pb_tag pb)) as ((A1 & A2 & A3 & A4 & A5) & B). cbn [fst snd].
            eapply SPost_trans; [apply (P2 CSPWriteErr); exact I|].
-           constructor; [exact A4 | exact A3 | rewrite A2; apply Z.le_refl | intros x NE; rewrite A1; reflexivity | intros x; rewrite A1; auto | | apply B; reflexivity].
+           constructor; [rewrite A4; auto | exact A3 | rewrite A2; apply Z.le_refl | intros x NE; rewrite A1; reflexivity | intros x; rewrite A1; auto | | apply B; reflexivity].
            destruct R2 as [r1 r2 r3 r4]. constructor; rewrite ?A1, ?A2, ?A3; auto.
         -- destruct (SF_go_stuck 1 [] c2 false (pb_tag pb)) as ((A1 & A2 & A3 & A4 & A5) & B). cbn [fst snd].
            eapply SPost_trans; [apply (P2 CSPWriteErr); exact I|].
-           constructor; [exact A4 | exact A3 | rewrite A2; apply Z.le_refl | intros x NE; rewrite A1; reflexivity | intros x; rewrite A1; auto | | apply B; reflexivity].
+           constructor; [rewrite A4; auto | exact A3 | rewrite A2; apply Z.le_refl | intros x NE; rewrite A1; reflexivity | intros x; rewrite A1; auto | | apply B; reflexivity].
            destruct R2 as [r1 r2 r3 r4]. constructor; rewrite ?A1, ?A2, ?A3; auto.
 Qed.
 
@@ -384,7 +395,7 @@ Qed.
 
 (* flushPending *)
 Record FPost (c : cconn) (ids : list N) (c' : cconn) (r : cl_spres) : Prop := mkFPost {
-  fp_win : cc_winCh c' = cc_winCh c;
+  fp_win : cc_winCh c' = false -> cc_winCh c = false;
   fp_cw : (cc_connWindow c' <= cc_connWindow c)%Z;
   fp_ids : forall x, In x (map pb_id (cc_pending c')) -> In x (map pb_id (cc_pending c));
   fp_other : forall x, ~ In x ids -> cl_pend_get (cc_pending c') x = cl_pend_get (cc_pending c) x;
@@ -407,7 +418,7 @@ Proof.
     destruct r1; cbn [fst snd].
     + specialize (IH c1 s6). destruct (cl_flush_pending c1 t) as [c' r]. cbn [fst snd] in IH.
       destruct IH as [f1 f2 f3 f4 f5 f6]. cbn [fst snd]. constructor.
-      * rewrite f1. exact s1.
+      * intro X. apply s1, f1, X.
       * clear - f2 s3. lia.
       * intros x HX. apply s5, f3, HX.
       * intros x NI. rewrite f4 by (intro X; apply NI; right; exact X). apply s4. intro X. apply NI. left. symmetry. exact X.
@@ -498,6 +509,15 @@ Proof.
     destruct wr; [|exact R2].
     destruct (SF_notes (cl_write_data (cc_maxFrame (cs_conn c pb id)) id (cs_chunk c pb) (cs_end c pb)) (cs_conn c pb id)) as (F1 & F2 & F3 & _).
     destruct R2 as [q1 q2 q3 q4]. constructor; rewrite ?F1, ?F2, ?F3; auto.
+  - (* MSendBack *)
+    destruct V as (pb & G & _). cbn [apply] in *. rewrite G in *. unfold send_back in *. cbv zeta in *.
+    destruct (cs_conn_facts c pb id G (mkRNG c r1 r2 r3 r4)) as (_ & _ & _ & _ & _ & R2 & _).
+    assert (R3 : RNG (if (0 <? cs_n c pb)%Z then cl_add_window (cs_conn c pb id) 0 (cs_n c pb) else cs_conn c pb id)).
+    { destruct (0 <? cs_n c pb)%Z; [|exact R2]. destruct R2 as [q1 q2 q3 q4].
+      unfold cl_add_window, cl_signal_window. cbn [N.eqb]. constructor; cc_cbn; auto. apply cl_i32_range. }
+    set (c3 := if (0 <? cs_n c pb)%Z then _ else _) in *.
+    destruct (cl_pend_get (cc_pending c3) id); [|exact R3].
+    apply (RNG_del c3 _ id); try reflexivity. exact R3.
   - apply SAME; cbn [apply]; destruct (negb _); auto.
   - (* MHeaders *)
     destruct V as (_ & _ & _ & _ & _ & PB & _). cbn [apply] in *. destruct opb as [pb|]; constructor; cc_cbn; auto.
@@ -518,7 +538,7 @@ Lemma NS_same (c c' : cconn) :
 Proof. intros A B C Dd N LV WC pb HP. unfold blocked. rewrite B. apply N; auto. Qed.
 
 Definition quiet_flow (m : move) : Prop :=
-  match m with MSend _ _ | MRefill _ | MHeaders _ _ | MPendAddDel _ | MWinCh => False | _ => True end.
+  match m with MSend _ _ | MSendBack _ | MRefill _ | MHeaders _ _ | MPendAddDel _ | MWinCh => False | _ => True end.
 
 Lemma mv_NS m (c : cconn) : valid m c -> quiet_flow m -> NS c -> NS (apply m c).
 Proof.
@@ -586,7 +606,7 @@ Proof.
   pose proof (send_pending_fueled c7 (pb_id pb) R7) as SP.
   destruct (cl_send_pending (cl_send_fuel c7 (pb_id pb)) c7 (pb_id pb)) as [c8 r]. cbn [fst snd] in *.
   destruct SP as [s1 s2 s3 s4 s5 s6 s7]. destruct r; [|exact I | exact s7].
-  intros WC p HP. rewrite s1, W7 in WC.
+  intros WC p HP. apply s1 in WC. rewrite W7 in WC.
   destruct (N.eq_dec (pb_id p) (pb_id pb)) as [EQ|NE].
   - pose proof (pend_get_member _ _ (r_nd _ s6) HP) as G. rewrite EQ in G.
     destruct s7 as [X|(pb' & X & B)]; rewrite G in X; [discriminate|]. inversion X; subst pb'. exact B.
@@ -719,7 +739,8 @@ Theorem no_stall evs pb :
 Proof. cbv zeta. intros LV WC HP. destruct (NS_RNG_run evs) as [_ N]. exact (N LV WC pb HP). Qed.
 
 (* sendPending, run to its end by the write loop, leaves the body it was called for gone or blocked, touches no other
-   body and never raises the connection window *)
+   body, never raises the connection window and never takes the winCh token away (it sets it when it hands a chunk of
+   a request that was taken back to the connection window again) *)
 Theorem send_pending_runs_dry evs id :
   let c := run evs in
   let res := cl_send_pending (cl_send_fuel c id) c id in
@@ -727,10 +748,11 @@ Theorem send_pending_runs_dry evs id :
   (cl_pend_get (cc_pending (fst res)) id = None \/
    exists pb', cl_pend_get (cc_pending (fst res)) id = Some pb' /\ pb_body pb' <> [] /\ (cl_zmin (pb_window pb') (cc_connWindow (fst res)) <= 0)%Z) /\
   (forall x, x <> id -> cl_pend_get (cc_pending (fst res)) x = cl_pend_get (cc_pending c) x) /\
-  (cc_connWindow (fst res) <= cc_connWindow c)%Z /\ cc_winCh (fst res) = cc_winCh c.
+  (cc_connWindow (fst res) <= cc_connWindow c)%Z /\ (cc_winCh c = true -> cc_winCh (fst res) = true).
 Proof.
   cbv zeta. intro OK. destruct (NS_RNG_run evs) as [R _]. destruct (send_pending_fueled (run evs) id R) as [s1 s2 s3 s4 s5 s6 s7].
-  rewrite OK in s7. split; [exact s7|]. split; [exact s4|]. split; [exact s3 | exact s1].
+  rewrite OK in s7. split; [exact s7|]. split; [exact s4|]. split; [exact s3|].
+  intro T. destruct (cc_winCh (fst _)) eqn:W; [reflexivity|]. rewrite (s1 eq_refl) in T. discriminate.
 Qed.
 
 (* ---------- every step that opens a window leaves the winCh token set ---------- *)
@@ -752,6 +774,7 @@ Proof.
     assert (X : cc_winCh (cs_conn c pb id) = true) by (unfold cs_conn; destruct (cs_end c pb); exact W).
     destruct wr; [|exact X]. destruct (SF_notes (cl_write_data (cc_maxFrame (cs_conn c pb id)) id (cs_chunk c pb) (cs_end c pb)) (cs_conn c pb id)) as (_ & _ & _ & F4 & _).
     rewrite F4. exact X.
+  - destruct (cl_pend_get _ _) as [pb|]; [|exact W]. sb_cases c pb; cc_cbn; auto.
   - destruct (negb _); exact W.
   - destruct opb; exact W.
 Qed.
